@@ -25,10 +25,16 @@ def gen_strings(rng, n):
 
 # *_map / *_list: the value sits inside a mapping or a list nested in the loop item / vars / set_vars value
 # shadow: the variable carrying the value has the NAME of an earlier parameter of the same task (mode / chdir): the user's variable must win
-CHANNELS = ["direct", "loop", "vars", "set_vars", "register", "loop_map", "loop_list", "vars_map", "set_vars_map", "shadow"]
+# suffix: the templated text ENDS in a file extension (.html, .json, .yml ...): no escaping may be switched on by it
+CHANNELS = ["direct", "loop", "vars", "set_vars", "register", "loop_map", "loop_list", "vars_map", "set_vars_map", "shadow", "suffix"]
+EXTS = [".html", ".htm", ".xml", ".json", ".json5", ".js", ".yaml", ".yml", ".j2", ".html.j2", ".txt"]
 
 
-def script(channel, root):
+def ext_of(v):
+    return EXTS[sum(v.encode()) % len(EXTS)]
+
+
+def script(channel, root, v=""):
     helper = C.VH
     src = "{{ env.VP }}"
     pre = ""
@@ -58,6 +64,12 @@ def script(channel, root):
     elif channel == "register":
         pre = "- command:\n    argv: [sh, -c, 'printf %s \"$VP\"']\n  register: r\n"
         use = "{{ r.output }}"
+    if channel == "suffix":
+        e = ext_of(v)
+        s = "#!/usr/bin/env rash\n"
+        s += "- copy:\n    content: \"{{ env.VP }}%s\"\n    dest: \"%s/out/file\"\n" % (e, root)
+        s += "- command:\n    argv: [\"%s\", argvdump, \"%s/out/argv\", \"{{ env.VP }}%s\", \"second arg\"]\n" % (helper, root, e)
+        return s
     if channel == "shadow":
         s = "#!/usr/bin/env rash\n"
         s += "- copy:\n    mode: \"0644\"\n    dest: \"%s/out/file\"\n    content: \"{{ mode }}\"\n  vars:\n    mode: \"%s\"\n" % (root, src)
@@ -74,7 +86,7 @@ def run_probe(root, v, channel, timeout=10):
     shutil.rmtree(root, ignore_errors=True)
     os.makedirs(os.path.join(root, "out"))
     with open(os.path.join(root, "main.rh"), "w") as fh:
-        fh.write(script(channel, root))
+        fh.write(script(channel, root, v))
     env = dict(os.environ, VP=v)
     try:
         p = subprocess.run([C.RASH, "--output", "raw", os.path.join(root, "main.rh")], capture_output=True, timeout=timeout, env=env, cwd=root, start_new_session=True)
@@ -119,7 +131,7 @@ def c12(run, replay=None):
     nontrivial = set()
     dist = {}
     for (v, ch), o in zip(probes, res):
-        want = v.encode()
+        want = v.encode() + (ext_of(v).encode() if ch == "suffix" else b"")
         ok = o["rc"] == 0 and o["file"] == want and o["argv"] == [want, b"second arg"]
         special = not cls[v]["plain"]
         if special:
